@@ -46,6 +46,31 @@ package inhibit
 //@ spec lval(L model.LabelSet, n model.LabelName) model.LabelValue = n in L ? L[n] : ""
 //@ axiom eqFP_iff_equal_labels: forall r *InhibitRule, L1 model.LabelSet, L2 model.LabelSet :: { eqFP(r, L1), eqFP(r, L2) }
 //@     (eqFP(r, L1) == eqFP(r, L2)) == (forall n model.LabelName :: n in r.Equal ==> lval(L1, n) == lval(L2, n))
+// C03: building a rule from its configuration: every configured matcher of the three syntaxes ends up on its side
+// (counted per side, so a matcher put on the wrong side is noticed), the new-style target matchers are taken over as
+// they are, the equal list is exactly the configured one, and the rule starts with a source cache and index of its own.
+//@ func NewInhibitRule
+//@   props C03
+//@   maypanic
+//@   nosafe
+//@   ensures [rule] result != nil && fresh(result) && result.scache != nil && result.sindex != nil
+//@   ensures [equal-list] fresh(result.Equal) && (forall ln model.LabelName :: (ln in result.Equal) == (exists i int :: 0 <= i && i < len(cr.Equal) && cr.Equal[i] == ln))
+//@   ensures [source-matchers-of-all-three-kinds] len(result.SourceMatchers) == len(cr.SourceMatch) + len(cr.SourceMatchRE) + len(cr.SourceMatchers)
+//@   ensures [target-matchers-of-all-three-kinds] len(result.TargetMatchers) == len(cr.TargetMatch) + len(cr.TargetMatchRE) + len(cr.TargetMatchers)
+//@   ensures [new-style-target-matchers-kept] forall i int :: 0 <= i && i < len(cr.TargetMatchers) ==> cr.TargetMatchers[i] in elems(result.TargetMatchers)
+//@   ensures [source-cache-reports-its-garbage-collections] count("SetGCCallback") == 1
+//@   at call SetGCCallback assert [on-the-rule's-own-cache] arg0 == rule.scache && arg0 != nil
+//@   loop 1 invariant (sourcem == nil || fresh(sourcem)) && len(sourcem) == len(visited) && (forall k string :: (k in visited) ==> (k in cr.SourceMatch)) && dom(cr.SourceMatch) == rangedom
+//@   loop 2 invariant (sourcem == nil || fresh(sourcem)) && len(sourcem) == len(cr.SourceMatch) + len(visited) && (forall k string :: (k in visited) ==> (k in cr.SourceMatchRE)) && dom(cr.SourceMatchRE) == rangedom
+//@   loop 3 invariant (targetm == nil || fresh(targetm)) && len(targetm) == len(visited) && (forall k string :: (k in visited) ==> (k in cr.TargetMatch)) && dom(cr.TargetMatch) == rangedom
+//@   loop 3 invariant len(sourcem) == len(cr.SourceMatch) + len(cr.SourceMatchRE) + len(cr.SourceMatchers)
+//@   loop 4 invariant (targetm == nil || fresh(targetm)) && len(targetm) == len(cr.TargetMatch) + len(visited) && (forall k string :: (k in visited) ==> (k in cr.TargetMatchRE)) && dom(cr.TargetMatchRE) == rangedom
+//@   loop 4 invariant len(sourcem) == len(cr.SourceMatch) + len(cr.SourceMatchRE) + len(cr.SourceMatchers)
+//@   loop 5 invariant rangeindex < len(cr.Equal) && fresh(equal) && (forall ln model.LabelName :: (ln in equal) == (exists i int :: 0 <= i && i <= rangeindex && cr.Equal[i] == ln))
+//@   loop 5 invariant len(sourcem) == len(cr.SourceMatch) + len(cr.SourceMatchRE) + len(cr.SourceMatchers)
+//@   loop 5 invariant len(targetm) == len(cr.TargetMatch) + len(cr.TargetMatchRE) + len(cr.TargetMatchers) && (forall i int :: 0 <= i && i < len(cr.TargetMatchers) ==> cr.TargetMatchers[i] in elems(targetm))
+//@   assigns nothing
+
 // The body is verified up to the hash itself: the label set handed to LabelSet.Fingerprint holds exactly the
 // rule's equal labels, each with the alert's value (a missing label reading as empty), and the result is that
 // fingerprint. Assumed (after-call clause): the fingerprint of that projected label set is eqFP(r, lset).
